@@ -310,6 +310,18 @@ func runSeedGroups(tier string, seed int64) {
 			seedGroup(spellings(p, false), false, "y", "randommnemonic")
 		}
 	}
+	// long texts (several hundred bytes, beyond any internal buffer size) in several spellings
+	nlong := map[string]int{"quick": 24, "thorough": 400}[tier]
+	for k := 0; k < nlong; k++ {
+		var sb strings.Builder
+		target := 300 + r.intn(900)
+		for sb.Len() < target {
+			sb.WriteString(strings.Repeat("x", r.intn(40)))
+			sb.WriteString(randomUnicode(r, 1+r.intn(6)))
+		}
+		s := sb.String()
+		seedGroup(spellings(s, false), k%2 == 0, "z", "longtext")
+	}
 	// F3 probes (known finding): marks of ccc 230 and 220 straddling the 30-non-starter boundary, two orders
 	a := "a" + strings.Repeat("́", 30) + "̖"
 	b := "a" + "̖" + strings.Repeat("́", 30)
